@@ -46,7 +46,11 @@ class C13(Prop):
                 r["body_text"] = base64.b64decode(r["body"]).decode("latin-1")
             else:
                 r["wrapped_saw"] = r.get("wrapped_saw") or []
-        return {"open": [r for r in rows if r["kind"] == "open"], "route": [r for r in rows if r["kind"] == "route"]}
+        rc, out, p2, dt = C.go_test_overlay(ctx.work, "./agent/websockets/", "TestVerifC13Redirect$", OVERLAY, "c13redir.jsonl", ctx.seed, ctx.tier, timeout=900)
+        redir = C.read_jsonl(p2)
+        if rc != 0 or not redir:
+            raise RuntimeError("C13 redirect harness did not run: rc=%s\n%s" % (rc, out[-2000:]))
+        return {"open": [r for r in rows if r["kind"] == "open"], "route": [r for r in rows if r["kind"] == "route"], "redirect": redir}
 
     @staticmethod
     def _cls(r):
@@ -70,6 +74,14 @@ class C13(Prop):
                 res.append(("dialed-foreign-address:" + self._cls(r), "the agent tried to connect to %r (configured backend %s)" % (bad, BACKEND), rp))
             if r["status"] not in (200, 400, 500):
                 res.append(("open-unexpected-status", "status %s" % r["status"], rp))
+        for r in obs.get("redirect", []):
+            bad = [a for a in (r.get("dialed") or []) if a != r["backend"]]
+            rp = {"driver": "TestVerifC13Redirect: the backend answers the websocket handshake with this status and Location", "observed": r}
+            if bad:
+                res.append(("dialed-foreign-address:after-backend-reply-%dxx" % (r["backend_status"] // 100), "after the backend answered the handshake with %s Location %r the agent tried to connect to %r (configured backend %s)" % (
+                    r["backend_status"], r["backend_location"], bad, r["backend"]), rp))
+            elif r["status"] == 200:
+                res.append(("open-succeeded-without-handshake", "the backend answered the handshake with %s but the open request was answered 200" % r["backend_status"], rp))
         for r in obs["route"]:
             p = r["path"]
             if p.startswith(PREFIX) or p + "/" == PREFIX:
